@@ -83,5 +83,32 @@ def main():
     print("recorded %d documents (%d of them refused by the reader) -> %s" % (len(out), errs, path))
 
 
+def corpus():
+    """what the readers make of every historical fixture shipped under tests/ (the property quantifies over them; the
+    repository's own tests only look at a few fields of a few of them)"""
+    sys.path.insert(0, os.environ.get("VERIF_REPO", "/repo"))
+    from simfw import seams
+    seams.install()
+    from simfw.props import c05
+    from simfw import core
+    import simfw.machines.ci, simfw.machines.im, simfw.machines.ti, simfw.machines.mf      # noqa: register the machines
+    from simfw.seams import CTX
+    out = {}
+    for machine, f in c05.corpus():
+        m = core.machine_class(machine)(CTX, {})
+        src = os.path.join(os.environ.get("VERIF_REPO", "/repo"), "tests", f)
+        obj = m.new_obj()
+        try:
+            obj.load(src)
+        except Exception as e:
+            continue
+        out["%s:%s" % (machine, f)] = json.loads(core.cjson(m.observe(obj)))
+    path = os.path.join(VERIF, "golden", "corpus.json")
+    with open(path, "w") as fo:
+        json.dump({"_doc": corpus.__doc__, "cases": out}, fo, indent=0, sort_keys=True)
+    print("recorded %d fixtures -> %s" % (len(out), path))
+
+
 if __name__ == "__main__":
     main()
+    corpus()
